@@ -854,6 +854,26 @@ impl Pool {
                 error!("db_activity_ttl must be greater than 0");
                 return Err(Error::BadConfig);
             }
+
+            // The caches these two values configure take expirations of up to 1000 years,
+            // their builder panics beyond that.
+            const MAX_CACHE_EXPIRATION_SECS: u64 = 1000 * 365 * 24 * 3600;
+
+            if self.db_activity_ttl > MAX_CACHE_EXPIRATION_SECS {
+                error!(
+                    "db_activity_ttl must not be greater than {} (seconds)",
+                    MAX_CACHE_EXPIRATION_SECS
+                );
+                return Err(Error::BadConfig);
+            }
+
+            if self.table_mutation_cache_ms_ttl > MAX_CACHE_EXPIRATION_SECS * 1000 {
+                error!(
+                    "table_mutation_cache_ms_ttl must not be greater than {} (milliseconds)",
+                    MAX_CACHE_EXPIRATION_SECS * 1000
+                );
+                return Err(Error::BadConfig);
+            }
         }
 
         Ok(())
